@@ -45,6 +45,16 @@ Proof. exact sniff_run_mon_C18. Qed.
 Print Assumptions c18_sniffed_rewind.
 
 
+(* end of stream is never invented: a read that had room and delivered nothing is only ever seen once every
+   byte of prefix ++ stream has been delivered (inner streams obeying the AsyncRead contract: a 0-byte read
+   with room means end of stream); together with c18_propagate: an error never turns into an EOF *)
+Theorem c18_eof_only_at_end : forall fwd prefix i ops,
+  Forall chunk_pos (i_rscript i) ->
+  mon_C18_eof (match prefix with Some p => p | None => [] end) (i_stream i) ops
+              (fst (run fwd (mkAst prefix i) ops)) = true.
+Proof. exact run_mon_C18_eof. Qed.
+Print Assumptions c18_eof_only_at_end.
+
 (* TokioIo buffer bookkeeping, the arithmetic both unsafe blocks rely on *)
 Theorem c18_buffer : forall b a,
   (length (b_filled b) <= b_cap b)%nat -> (length (b_filled b) <= b_init b)%nat ->
